@@ -282,9 +282,82 @@ def float_sum_cases(ctx):
                            "first_failing_clause": "FloatSum.krun_spec (conclusion on the real floats) / no drift"})
     ctx.extra["float_sum_inexact_recoveries"] = inexact_total
 
+def typed_duration_cases(ctx):
+    """"the exact sum of the preceding event durations", whatever numeric TYPE delivers the durations: Python floats and ints,
+    Fractions, numpy float64 and float32 scalars (a PSequence over an array).  The reference is the exact rational sum of the
+    values delivered; several hundred off-grid events, so that a sum kept in less than double precision shows."""
+    import math
+    import isobar as iso
+    try:
+        import numpy as np
+    except Exception:
+        np = None
+    r = ctx.rng
+    kinds = (["numpy.float32", "numpy.float64"] if np is not None else []) + ["float", "Fraction", "int-and-float"]
+    for i in range(ctx.scale(5, 40)):
+        kind = kinds[i % len(kinds)] if i < len(kinds) else r.choice(kinds)
+        tpb = r.choice([480, 480, 96, 24])
+        base = r.choice([[0.1], [1 / 3], [5 / 7, 0.29], [0.1, 0.2, 0.7], [0.29], [1 / 9, 0.41]])
+        base = [max(d, 1.5 / tpb) for d in base]
+        if kind == "float":
+            vals = list(base)
+        elif kind == "Fraction":
+            vals = [Fraction(d).limit_denominator(97) for d in base]
+            vals = [v if v * tpb >= 1 else Fraction(2, tpb) for v in vals]
+        elif kind == "int-and-float":
+            vals = list(base) + [1]
+        elif kind == "numpy.float64":
+            vals = list(np.array(base, dtype=np.float64))
+        else:
+            vals = list(np.array(base, dtype=np.float32))
+        n_events = r.choice([600, 900, 1200]) if tpb == 480 else r.choice([1500, 3000])
+
+        class Rec(iso.io.output.OutputDevice):
+            def __init__(self):
+                super().__init__()
+                self.now, self.ons = 0, []
+
+            def note_on(self, note=60, velocity=64, channel=0):
+                self.ons.append(self.now)
+
+        dev = Rec()
+        tl = iso.Timeline(tempo=120, output_device=dev, clock_source=sched_impl.DummyClock(ticks_per_beat=tpb))
+        tl.schedule({"note": 60, "duration": iso.PSequence(vals), "gate": 0.5}, count=n_events)
+        exact, sums = Fraction(0), []
+        for k in range(n_events):
+            sums.append(exact)
+            exact += Fraction(float(vals[k % len(vals)])) if not isinstance(vals[k % len(vals)], Fraction) else vals[k % len(vals)]
+        nticks = math.ceil(exact * tpb) + 2
+        for j in range(nticks):
+            dev.now = j
+            tl.tick()
+        bad = None
+        if len(dev.ons) != n_events:
+            bad = "%d of %d events were performed in %d ticks" % (len(dev.ons), n_events, nticks)
+        else:
+            for k, (got, s) in enumerate(zip(dev.ons, sums)):
+                x = s * tpb
+                want = math.ceil(x)
+                # a sum within 10^-5 of a tick of the grid may legitimately count as on it (the code compares times rounded to
+                # 8 decimals): either neighbour is accepted there
+                ok = got == want or (abs(x - round(x)) < Fraction(1, 10 ** 5) and abs(got - round(x)) <= 1 and got >= round(x) - 0)
+                if not ok:
+                    bad = "event %d was performed on tick %d, the exact sum of the %d preceding durations (%s beats) is first reached on tick %d" % (
+                        k, got, k, float(s), want)
+                    break
+        ctx.case(("typed-durations", kind, tpb, repr(vals), n_events), nontrivial=True, validated=False,
+                 sample={"part": "typed durations", "type": kind, "tpb": tpb, "durations": [float(v) for v in vals], "events": n_events})
+        ctx.count("typed-durations:%s" % kind)
+        if bad:
+            ctx.violation("C01:typed-durations:%s" % kind, "durations delivered as %s (%s) at %d ticks per beat: %s" % (kind, [float(v) for v in vals], tpb, bad),
+                          {"suite": "c01-typed-durations", "type": kind, "tpb": tpb, "durations": [repr(v) for v in vals], "events": n_events,
+                           "first_failing_clause": "k-th event on the first tick at or after the exact sum of the preceding durations"})
+
+
 def run(ctx):
     float_clock_cases(ctx)
     float_sum_cases(ctx)
+    typed_duration_cases(ctx)
     r = ctx.rng
     # (a) model correspondence
     sched_suite.run_suite(ctx, PROF, ctx.scale(1500, 100000), "c01", [], nontrivial, signature_of)
